@@ -377,6 +377,140 @@ def build(ctx):
                      And(0 <= jx, jx < R.n, ex_.t == x), witness=dict(wit, o2=o2, x=x), replay=rp('drange'))
     ctx.guarded('bdays_drange', bdays_drange)
 
+    # ------------------------------------------------------------------ _populate: the body against the contract POPULATE used above
+    def populate_section():
+        from pyvc import th_seq
+        from pyvc.symex import LoopSpec
+        fdef = m.func('Calendar._populate')
+        comps = [c for c in find_all(fdef, lambda x: isinstance(x, ast.ListComp))]
+        gens = [g for g in find_all(fdef, lambda x: isinstance(x, ast.GeneratorExp))]
+        if len(comps) != 1 or len(gens) != 1:
+            raise SelectorError('_populate: expected one generator expression (byweekday) and one filtered comprehension (bdays)')
+        comp = comps[0]
+        # the module-level table `weekdays` must map k to dateutil's k-th weekday constant
+        wk = m.global_assign('weekdays')
+        names = ['MO', 'TU', 'WE', 'TH', 'FR', 'SA', 'SU']
+        if not (isinstance(wk, ast.Dict) and [getattr(k, 'value', None) for k in wk.keys] == list(range(7)) and [ast.unparse(v) for v in wk.values] == names):
+            raise SelectorError('weekdays is not {0: MO, ..., 6: SU}')
+        ND = Int('ND')
+        D = Function('allowed_day', IntSort(), IntSort())          # the rrule sequence (ordinals), axiomatised below
+        P = lambda k: If(k < ND, D(k), T1o + 1)                    # first day not yet passed when k elements have been consumed
+
+        class Pop:
+            def method(self, ex, st, e, recv, mname, args, kwargs):
+                if recv.kind == 'obj' and mname == 'get' and len(args) == 1 and args[0].kind == 'str' and args[0].lit in ('dt2int', 'int2dt'):
+                    ex.use('path precondition:the tables are not built yet (self.get("dt2int") is None)')
+                    return NONE
+                return NotImplemented
+
+            def expr(self, ex, st, e):
+                if isinstance(e, ast.GeneratorExp) and len(e.generators) == 1 and ast.unparse(e.generators[0].iter) == 'weekdays.items()' \
+                        and isinstance(e.generators[0].target, ast.Tuple) and len(e.generators[0].ifs) == 1:
+                    g = e.generators[0]
+                    kname, vname = [x.id for x in g.target.elts]
+                    if ast.unparse(e.elt) != vname:
+                        raise OutOfSubset('byweekday generator yields %s' % ast.unparse(e.elt))
+                    kk = Int(fresh_name('wk'))
+                    sub = st.fork(); sub.env = dict(st.env); sub.env[kname] = I(kk)
+                    c = ex.truth(sub, ex.eval(sub, g.ifs[0]))
+                    ex.use('axiom:(v for k, v in weekdays.items() if c(k)) yields dateutil weekday k for exactly the k in 0..6 with c(k)')
+                    return SV('wdset', None, pred=lambda x: z3.substitute(c, (kk, x)))
+                return NotImplemented
+
+            def call(self, ex, st, e, fname, args, kwargs):
+                if fname == 'tuple' and len(args) == 1 and args[0].kind == 'wdset':
+                    return args[0]
+                if fname == 'dict' and len(args) == 1 and args[0].kind == 'lazylist' and 'zipped' in args[0].f:
+                    ex.use('axiom:dict(zip(ks, vs)) maps ks[i] to vs[i] (distinct keys)')
+                    return SV('zipdict', None, parts=args[0].f['zipped'])
+                if fname == 'zip' and len(args) == 2:
+                    n0 = th_seq.L_len(args[0]) if args[0].kind in ('list', 'lazylist') else args[0].n
+                    return SV('lazylist', None, n=n0, at=None, zipped=args)
+                if fname == 'len' and len(args) == 1 and args[0].kind in ('list', 'lazylist'):
+                    return I(th_seq.L_len(args[0]))
+                return NotImplemented
+
+            def pre_call(self, ex, st, e):
+                if isinstance(e.func, ast.Name) and e.func.id == 'rrule':
+                    kw = {k.arg: k.value for k in e.keywords}
+                    ok = (len(e.args) == 1 and ast.unparse(e.args[0]) == 'DAILY' and ast.unparse(kw.get('interval')) == '1'
+                          and ast.unparse(kw.get('dtstart')) == 'self.t0' and ast.unparse(kw.get('until')) == 'self.t1' and set(kw) == {'interval', 'dtstart', 'until', 'byweekday'})
+                    if not ok:
+                        raise OutOfSubset('rrule call of _populate is not rrule(DAILY, interval = 1, dtstart = self.t0, until = self.t1, byweekday = ...)')
+                    wd_ = ex.eval(st, kw['byweekday'])
+                    if wd_.kind != 'wdset':
+                        raise OutOfSubset('byweekday is not the filtered weekday tuple')
+                    ex.use('axiom:rrule(DAILY, interval=1, dtstart=a, until=b, byweekday=S) enumerates, in increasing order, exactly the days of [a, b] whose weekday is in S (midnight datetimes)')
+                    k, o_ = Ints('k!rr o!rr')
+                    allowed = lambda x: wd_.pred(wd(x))
+                    ex.fact(ND >= 0)
+                    ex.fact(ForAll([o_], Implies(And(T0o <= o_, o_ < P(IntVal(0))), Not(allowed(o_)))))
+                    ex.fact(ForAll([k], Implies(And(0 <= k, k < ND), And(T0o <= D(k), D(k) <= T1o, allowed(D(k)), D(k) < P(k + 1),
+                                                                        ForAll([o_], Implies(And(D(k) < o_, o_ < P(k + 1)), Not(allowed(o_))))))))
+                    st.ghost['allowed'] = allowed
+                    return th_seq.lazy(ND, lambda st2, j: DT(D(j), 0), elem='dt')
+                return NotImplemented
+
+            def store_subscript(self, ex, st, tg, recv, idx, v):
+                if recv.kind == 'obj' and idx.kind == 'str' and idx.lit in ('dt2int', 'int2dt') and v.kind == 'zipdict':
+                    st.ghost['built_' + idx.lit] = v
+                    return recv
+                return NotImplemented
+
+        def inv(st, entry):
+            k = st.ghost['_populate.bdays.k']
+            res = st.ghost['_populate.bdays.res']
+            n_ = th_seq.L_len(res)
+            p, b = Ints('p!pop b!pop')
+            rp = th_seq.L_at(st, res, p)
+            rb = th_seq.L_at(st, res, C(b))
+            return [('length_is_the_count_so_far', And(n_ == C(P(k)), n_ >= 0)),
+                    ('members_are_the_business_days_passed_in_order',
+                     ForAll([p], Implies(And(0 <= p, p < n_), And(bd(rp.t), T0o <= rp.t, rp.t < P(k), rp.us == 0, C(rp.t) == p)))),
+                    ('every_business_day_passed_is_listed',
+                     ForAll([b], Implies(And(T0o <= b, b < P(k), bd(b)), And(0 <= C(b), C(b) < n_, rb.t == b, rb.us == 0))))]
+
+        spec = LoopSpec('_populate.bdays', inv)
+        ex = Exec(m, [Pop(), Cal(False), th_seq.Lists('dt'), Globals(md, ['DAY']), TypePreds(), Dates(), ConcreteStr(md, [])],
+                  loops={id(comp): spec}, inline=inline, name='_populate', prune=False)
+        st = State()
+        kq, aq, bq = Ints('k!q a!q b!q')
+        # C(t0) = 0, its difference equation, and the gap lemma (proved above by induction) as quantified facts for this section
+        st.pc += [T0o <= T1o, C(T0o) == 0, ForAll([kq], AX_C(kq)), ForAll([aq, bq], GAP0(aq, bq))]
+        self_p = SV('obj', None, cls='Calendar')
+        outs = ex.run_function(st, 'Calendar._populate', [self_p], {})
+        ctx.absorb(ex)
+        ctx.record_function(m, 'Calendar._populate', fdef, ex.stmts_executed, excluded=['already populated calendar (tables present): returns self unchanged'])
+        nret = 0
+        for out in outs:
+            hy = ex.facts + out.st.pc
+            if out.kind != 'return':
+                ctx.post('_populate.never_raises.%s' % out.val, hy, BoolVal(False), kind='safety')
+                continue
+            d2i, i2d = out.st.ghost.get('built_dt2int'), out.st.ghost.get('built_int2dt')
+            if d2i is None or i2d is None:
+                ctx.post('_populate.builds_both_tables', hy, BoolVal(False))
+                continue
+            nret += 1
+            R = out.st.ghost['_populate.bdays.res']
+            ctx.post('_populate.dt2int_maps_the_business_days_to_their_positions', hy, BoolVal(d2i.f['parts'][0] is R and d2i.f['parts'][1].kind == 'range'), kind='syntactic')
+            ctx.post('_populate.int2dt_maps_positions_to_the_business_days', hy, BoolVal(i2d.f['parts'][1] is R and i2d.f['parts'][0].kind == 'range'), kind='syntactic')
+            rng = d2i.f['parts'][1]
+            ctx.post('_populate.positions_are_0_to_len', hy, And(rng.lo == 0, rng.step == 1, rng.n == th_seq.L_len(R)))
+            n_ = th_seq.L_len(R)
+            p, b = Ints('p!post b!post')
+            s2 = out.st.fork()
+            rp, rb = th_seq.L_at(s2, R, p), th_seq.L_at(s2, R, C(b))
+            # exactly the assumed contract POPULATE, with I2D(k) := bdays[k] and NB := len(bdays)
+            ctx.post('_populate.kth_entry_is_the_business_day_with_k_business_days_before_it', hy + [0 <= p, p < n_],
+                     And(bd(rp.t), T0o <= rp.t, rp.t <= T1o, rp.us == 0, C(rp.t) == p))
+            ctx.post('_populate.every_business_day_of_the_range_is_in_the_table', hy + [T0o <= b, b <= T1o, bd(b)],
+                     And(0 <= C(b), C(b) < n_, rb.t == b))
+        if nret == 0:
+            raise OutOfSubset('_populate has no returning path')
+    inline['Calendar._populate'] = (m, m.func('Calendar._populate'))
+    ctx.guarded('_populate', populate_section)
+
     # ------------------------------------------------------------------ registry: calendar(key, holidays, weekend, t0, t1)
     def registry_section():
         from pyvc.th_lists import Val, NONEV, V
